@@ -1,5 +1,6 @@
 import BsVerif.Core.Proto
 import BsVerif.Model.PathIndex
+import BsVerif.Model.FnPath
 import BsVerif.Model.Symbols
 namespace Driver.C17
 open BsVerif BsVerif.Proto BsVerif.PathIndex BsVerif.Symbols
@@ -44,6 +45,19 @@ def step (s : St) : List String → St × String
     | _, _, _ => (s, "bad-op")
   | ["get", needle] => match decStr? needle with
     | some n => (s, encList toString (s.ix.get s.delim n))
+    | none => (s, "bad-op")
+  -- function paths (`NamespaceHierarchy::split_path`): a demangled name as `from_mangled` cuts it; the i-th function of a
+  -- binary inserted under the components of its demangled name; `break <template>` through `search_functions`
+  | ["fnpath", text] => match decStr? text with
+    | some t => (s, encList encStr (BsVerif.FnPath.splitPath t))
+    | none => (s, "bad-op")
+  | ["insertfn", name, v] => match decStr? name, decNat? v with
+    | some n, some v =>
+      let (ns, h) := BsVerif.FnPath.fromDemangled n
+      ({ s with ix := s.ix.insertWHead ns h v }, "ok")
+    | _, _ => (s, "bad-op")
+  | ["break", tpl] => match decStr? tpl with
+    | some t => (s, encList toString (BsVerif.FnPath.searchFunctions s.ix t))
     | none => (s, "bad-op")
   -- symbol sessions
   | ["new", "sym", _prog] => ({ s with objs := [] }, "ok")
